@@ -50,6 +50,7 @@ def trees():
         "overlap-names": lambda: torch.nn.ModuleDict({"a": torch.nn.ModuleDict({"aa": torch.nn.Linear(3, 3), "a": torch.nn.ModuleDict({"a": torch.nn.Linear(3, 3)})}), "ab": torch.nn.ModuleDict({"ba": torch.nn.Linear(3, 3), "b": torch.nn.Conv2d(1, 1, 1)})}),
         "root-is-linear": lambda: torch.nn.Sequential(torch.nn.Linear(3, 3)),
         "only-others": lambda: torch.nn.Sequential(torch.nn.ReLU(), torch.nn.Embedding(3, 3), torch.nn.BatchNorm1d(3)),
+        "non-default-hyper": lambda: torch.nn.Sequential(torch.nn.LayerNorm(3, eps=1e-12), torch.nn.Sequential(torch.nn.LayerNorm((2, 3), eps=0.5, elementwise_affine=True), torch.nn.Conv2d(2, 4, (1, 2), stride=(2, 1), padding=(0, 1), dilation=(1, 2), groups=2, bias=False, padding_mode="reflect")), torch.nn.Linear(3, 2, bias=False)),
         "conv-stack": lambda: torch.nn.Sequential(torch.nn.Conv2d(1, 2, 1), torch.nn.Sequential(torch.nn.Conv2d(2, 2, 1, groups=2), torch.nn.LayerNorm(2))),
     }
 
@@ -224,6 +225,13 @@ def run_case(case, res):
                 if not (pres and cleared):
                     res.candidate("params", "ALG", enc)
                 fm2, _ = make_module(case["module"], conf, dt)  # hyper-parameter carrier for the float twin
+                hp_ok = hyper(qm) == hyper(fm2)
+                res.side_ok("hyper-parameters-mirrored", hp_ok, f"{cfg}: {hyper(qm)} vs {hyper(fm2)}")
+                if not hp_ok:
+                    res.side[-1]["replayed"] = True
+                    e1 = dict(enc)
+                    e1["kind"] = "hyper"
+                    res.candidate("hyper", "side", e1, exact=True)
                 try:
                     with torch.no_grad():
                         y = qm(x)
@@ -428,6 +436,10 @@ def replay(rec):
         key = ["C08/layernorm-without-affine"] if inp["module"] == "lnorm" and LNORMS[inp["conf"]].get("elementwise_affine") is False else None
         return True, f"quantize() raised {type(e).__name__}: {e}", key
     qm = model[0]
+    if inp["kind"] == "hyper":
+        fm3, _ = make_module(inp["module"], inp["conf"], dt)
+        bad = hyper(qm) != hyper(fm3)
+        return bad, f"quantized module hyper-parameters {hyper(qm)} vs float module {hyper(fm3)}", None
     if inp["kind"] == "uncalibrated":
         try:
             with torch.no_grad():
